@@ -42,6 +42,8 @@ var replayAdapters = map[string]func(eng *Engine, a *obAgg, f *Oblig, replay map
 // fixedReplays: obligations whose counterexample is schedule/sequence shaped (not a function input): a hand-written
 // adapter drives the real code through the scenario the failed obligation describes.
 var fixedReplays = map[string]struct{ tmpl, pkg, run string }{
+	"(*BeaconProcess).storeDKGOutput/assert/a-crash-between-the-two-writes-leaves-group-and-share-of-one-epoch": {"C13_group_share_torn_test.go.tmpl", "internal/core", "TestVerifReplayC13GroupShareTorn"},
+	"Save/assert/a-crash-while-saving-leaves-the-previous-file-intact": {"C13_save_crash_test.go.tmpl", "common/key", "TestVerifReplayC13SaveCrash"},
 	"messageForSigning/post/signed-message-covers-the-genesis-seed":          {"C09_dkg_auth_test.go.tmpl", "internal/dkg", "TestVerifReplayC09GenesisSeedNotSigned"},
 	"messageForSigning/post/signed-message-covers-every-participant-key":     {"C09_dkg_auth_test.go.tmpl", "internal/dkg", "TestVerifReplayC09ParticipantKeyNotSigned"},
 	"validateReshareForRemainers/post/remaining-and-leaving-members-carry-the-keys-recorded-in-the-current-group": {"C09_dkg_auth_test.go.tmpl", "internal/dkg", "TestVerifReplayC09OutsiderProposesAsLeader"},
